@@ -3,7 +3,8 @@ import itertools
 
 from core import strip, is_field, key_str, key_mentions
 from facts import AnalysisBroken
-from rules import (check_init, nodeset, ev, Unevaluable, atom_from, ret_const)
+from rules import (field_load, check_init, nodeset, ev, Unevaluable, atom_from, ret_const)
+from props import c01
 from symword import Machine
 import stale
 
@@ -65,8 +66,7 @@ def queue_field(fn, arg):
 
 def rows(P, fn, W, snapshots):
     """For each snapshot: dict(S, cas(bool), expected, desired, actions[(kind, queue, count)], ret, fail_resnap)"""
-    is_blob = lambda n: (n.k == "ImplicitCastExpr" and n.ck == "LValueToRValue" and strip(n).k == "MemberExpr" and strip(n).field == "blob"
-                         and strip(n).rec == UN and Machine(fn, P).locate(n.kids[0]) is None)
+    is_blob = lambda n: field_load("blob", UN)(n) and n.k == "ImplicitCastExpr" and Machine(fn, P).locate(n.kids[0]) is None
     blob_loads = [n for n in fn.nodes if is_blob(n)]
     is_cas = lambda n: n.k == "CallExpr" and (n.callee or "").startswith("__sync_bool_compare_and_swap")
     out = []
@@ -272,6 +272,9 @@ ROW_WHY = ("a row that removes waiters from the waiting counts without transferr
 
 def run(ctx):
     P = ctx.prog()
+    c01.core_dependency(ctx, P, "core.dep", ('fiber_manager_wait_in_mpsc_queue', 'fiber_manager_wait_in_mpsc_queue_and_unlock', 'fiber_manager_wake_from_mpsc_queue'),
+                        "the rwlock's sleep/wake path (wait_in_mpsc_queue / wake_from_mpsc_queue)",
+                        'a reader or writer resumed early enters the critical section without the lock word saying so')
     W = Word(P)
     o = ctx.ob("layout", "", "the four bit-fields cover one 64-bit word exactly (1+21+21+21) and `blob` overlays them", "")
     u = {f["name"]: f for f in P.record(UN)["fields"]}
